@@ -45,6 +45,10 @@ def ref_checks(d, names):
                 pop, pw0 = d["code"][a - 1][0], d["code"][a - 1][1]
                 if names[pop] == "BYTECODE_GLOBAL_VEC" and pw0 != funcs[w0][1]:
                     bad.append((a, n, "environment of %d slots for a function with %d free variables" % (pw0, funcs[w0][1])))
+                if names[pop] == "BYTECODE_COPYGLOB" and w0 != owner:
+                    # COPYGLOB re-uses the running function's own environment vector: only a reference
+                    # to the running function itself may be built from it
+                    bad.append((a, n, "function %d built over the environment vector of function %d" % (w0, owner)))
     return bad
 
 
@@ -94,8 +98,9 @@ def run(ctx):
             continue
         stats["programs"] += 1
         ctx.count(evaluations=1)
-        for (ip, *_r) in d["trace"][:vsteps]:
-            opseen[d["code"][ip][0]] += 1
+        for t in d["trace"][:vsteps]:
+            if t and t[0] < len(d["code"]):
+                opseen[d["code"][t[0]][0]] += 1
         sig = (len(d["code"]), len(d["funcs"]), tuple(sorted(collections.Counter(c[0] for c in d["code"]).items())))
         if sig not in shapes and len(d["funcs"]) > 30:
             shapes.add(sig)
@@ -116,8 +121,17 @@ def run(ctx):
             stats["lockstep_ok"] += 1
         if not ver.startswith("VERIFY ok"):
             stats["verify_fail"] += 1
-            ctx.correspondence_broken("verify(%s)" % pid, {"program": pid, "verify": ver, "lockstep": lock,
-                                                            "note": "the proved validator rejects this module"})
+            wit = v.get("witness", "")
+            if wit.startswith("WITNESS crash="):
+                # a concrete static path of this program's compiled code on which the shape machine crashes
+                kind = wit.split()[1]
+                ctx.violation("static-path-%s:%s" % (kind, pid),
+                              "compiled code of %s is ill-formed on a static path: %s; %s" % (pid, ver, wit[:300]),
+                              {"program": pid, "verify": ver, "witness_path": wit, "lockstep": lock,
+                               "how": "bcdump <program> | build/ocaml/verifier/run : the listed (ip:sp) path is a run of the shape machine over the real module ending in the crash"})
+            else:
+                ctx.correspondence_broken("verify(%s)" % pid, {"program": pid, "verify": ver, "witness": wit, "lockstep": lock,
+                                                                "note": "the proved validator rejects this module; no crashing static path found"})
         else:
             stats["verify_ok"] += 1
         if len(first_samples) < 4 and ver.startswith("VERIFY ok"):
